@@ -96,6 +96,8 @@ def run_docprop(ctx, mode, generate, signature=None, nontrivial=None, extra_fn=N
         for i in range(n):
             items.append((f"g{seed}_{i}", generate(g, i)))
     failures = []
+    known_sigs = {k.get("signature") for k in ctx.get("known", [])}
+    seen_known = set()
     stats = collections.Counter()
     dist = collections.Counter()
     distinct = set()
@@ -124,7 +126,21 @@ def run_docprop(ctx, mode, generate, signature=None, nontrivial=None, extra_fn=N
             if len(samples) < 3 and cls == "ok":
                 samples.append({"name": rec["name"], "spec": abbreviate(spec), "result": rec["result"]})
             if cls in ("holds", "corr", "build", "harness"):
-                if len([f for f in failures if f["kind"] == cls]) >= 3:
+                if cls == "holds" and signature:
+                    # a case fully explained by open known findings is recorded once per signature set, unshrunk,
+                    # and does not use up the budget of analysed failures: a NEW failure later in the stream still surfaces
+                    pre = signature(spec, rec["result"] or {})
+                    sigs = pre if isinstance(pre, list) else ([pre] if pre else [])
+                    if sigs and all(x in known_sigs for x in sigs):
+                        key = tuple(sorted(sigs))
+                        stats["known"] += 1
+                        if key not in seen_known:
+                            seen_known.add(key)
+                            failures.append({"kind": "holds", "name": "known", "spec": abbreviate(spec), "result": rec["result"],
+                                             "what": "explained by open known findings", "signatures": sigs, "signature": None})
+                        continue
+                if len([f for f in failures if f["kind"] == cls and f.get("name") != "known"]) >= 3:
+                    stats["not_analysed_" + cls] += 1
                     continue
                 failures.append(make_failure(ctx, mode, rec, cls, signature, extra_fn, shrink_steps, impl_fn))
     coverage = {
